@@ -9,6 +9,7 @@ use std::panic::{catch_unwind, AssertUnwindSafe};
 
 mod astops;
 mod canon;
+mod fmtops;
 mod hooks;
 mod pos;
 mod syn;
@@ -22,6 +23,8 @@ fn dispatch(req: &Value) -> Value {
         "range_ops" => pos::range_ops(req),
         "slice" => pos::slice(req),
         "parse" => syn::parse(req),
+        "fmt_template" => fmtops::fmt_template(req),
+        "field_name" => fmtops::field_name(req),
         "args_conv" => astops::args_conv(req),
         "lex" => syn::lex(req),
         "locate_tree" => syn::locate_tree(req),
